@@ -160,6 +160,47 @@ pub fn run(opts: &Opts, rep: &mut Report) {
         if rev != exp {
             fail("reverse-iteration-differs", show_chars(&rev), rep);
         }
+        // iterator adaptors that slice iterators specialise (nth, nth_back, size_hint, count, last)
+        {
+            let n = exp.len();
+            let it = view.chars();
+            let (lo, hi) = it.size_hint();
+            if lo > n || hi.map_or(false, |h| h < n) {
+                fail("size-hint-wrong", format!("size_hint ({lo}, {hi:?}) for {n} chars"), rep);
+            }
+            if view.chars().count() != n || view.chars().last() != exp.last().copied() {
+                fail("count-or-last-differs", String::new(), rep);
+            }
+            for _ in 0..3 {
+                let k = rng.below(n + 2);
+                let a = rng.below(n + 1);
+                let mut f = view.chars();
+                let mut b = view.chars();
+                // consume a few from the front first so that the adaptors work on an advanced iterator
+                for _ in 0..a.min(2) {
+                    f.next();
+                    b.next();
+                }
+                let base = a.min(2).min(n);
+                let rest = &exp[base..];
+                if f.nth(k) != rest.get(k).copied() {
+                    fail("nth-differs", format!("chars().nth({k}) after {base} next() calls"), rep);
+                }
+                let want_back = if k < rest.len() { Some(rest[rest.len() - 1 - k]) } else { None };
+                if b.nth_back(k) != want_back {
+                    fail("nth-back-differs", format!("chars().nth_back({k}) after {base} next() calls"), rep);
+                }
+                if view.chars().rev().nth(k) != exp.iter().rev().nth(k).copied() {
+                    fail("rev-nth-differs", format!("chars().rev().nth({k})"), rep);
+                }
+                let skipped: Vec<char> = view.chars().rev().skip(k).collect();
+                let want: Vec<char> = exp.iter().rev().skip(k).copied().collect();
+                if skipped != want {
+                    fail("rev-skip-differs", format!("chars().rev().skip({k})"), rep);
+                }
+            }
+            rep.count("c17.iterator-adaptors-checked");
+        }
         let disp: String = exp.iter().collect();
         if owned.to_string() != disp || view.to_string() != disp {
             fail("display-differs", owned.to_string(), rep);
